@@ -367,6 +367,20 @@ class Loader:
                 return Int((strmodel.eq_var(b, a),))
             return None
 
+        def m_bytes_test(kind):
+            """slice.starts_with(constant bytes) / slice == constant bytes on a slice of the file: a free boolean per (slice, needle),
+            recorded with the slice description and the needle so that the rules can judge WHAT is compared"""
+            def f(ip_, st, fr, t, args):
+                sd = slice_desc(val(st, args[0]))
+                nv = val(st, args[1])
+                if sd is None or not (isinstance(nv, Agg) and nv.fields and all(isinstance(x, Int) and bv.to_int(x.bits) is not None for x in nv.fields)):
+                    return None
+                needle = bytes(bv.to_int(x.bits) for x in nv.fields)
+                var = bv.seq_bv("bytes_%s_%d" % (kind, st.count("bt")), 1)[0]
+                st.add_eff(("bytes-test", kind, sd, needle, var))
+                return Int((var,))
+            return f
+
         def m_rangeincl(ip_, st, fr, t, args):
             return Opaque("rangeincl", (bits_of(args[0]), bits_of(args[1])))
 
@@ -534,6 +548,7 @@ class Loader:
         M["std::iter::range::<impl std::iter::Iterator for std::ops::Range<A>>::next"] = m_next
         M["<std::string::String as std::cmp::PartialEq<&str>>::eq"] = m_string_eq
         M["std::ops::RangeInclusive::<Idx>::new"] = m_rangeincl
+        M["core::slice::<impl [T]>::starts_with"] = m_bytes_test("prefix")
         M["core::str::<impl str>::as_bytes"] = m_as_bytes
         M["core::str::<impl str>::split_whitespace"] = m_split_ws
 
@@ -545,7 +560,7 @@ class Loader:
         ip.typed_unknown = typed_unknown
         # models that decline (return None) fall back to the typed unknown
         for name, fn in list(M.items()):
-            if fn in (m_index, m_len, m_string_eq, m_unwrap_or_else, m_nom_parse, m_filter, m_vec_push):
+            if fn in (m_index, m_len, m_string_eq, m_unwrap_or_else, m_nom_parse, m_filter, m_vec_push) or name.endswith("::starts_with"):
                 def wrap(ip_, st, fr, t, args, fn=fn, name=name):
                     r = fn(ip_, st, fr, t, args)
                     if r is None:
